@@ -333,7 +333,7 @@ def while_loop(eng, s, st, fr, k):
                 var1 = spec.variant(eng.S, eng.namespace(s2, entry=fr.fn["entry"]))
                 eng.oblige("variant", f"{pre}:decreases", s2, z3.And(var0 >= 0, var1 < var0), s)
             eng.canary(f"{pre}:body-end", s2, s)
-        fr_body = fr.with_(brk=lambda s2: k(s2), cont=body_end)
+        fr_body = fr.with_(brk=brk_of(eng, spec, pre, k, s), cont=body_end)
         eng.ex(s.body, body_st, fr_body, body_end)
         # exit
         s_exit = s1.assume(z3.Not(c))
@@ -341,6 +341,17 @@ def while_loop(eng, s, st, fr, k):
             s_exit = spec.on_exit(eng, s_exit)
         return eng.ex(s.orelse, s_exit, fr, k)
     return eng.ev(s.test, sh, fr, after_test)
+
+
+def brk_of(eng, spec, pre, k, node):
+    """continuation of ``break``: a loop declared ``runs_to_exhaustion`` must not be left by a break"""
+    if not getattr(spec, "runs_to_exhaustion", False):
+        return lambda s2: k(s2)
+
+    def brk(s2):
+        eng.oblige("loop-exhaustion", f"{pre}: the loop is not left before every element was visited (no break)", s2, z3.BoolVal(False), node)
+        return k(s2)
+    return brk
 
 
 def _norm(clauses):
@@ -488,7 +499,7 @@ def cut_loop(eng, s, it, st, fr, k):
         _body_ensures(eng, spec, s2, fr, {"k_": kk, "n_": n}, pre, s)
         _ghost_frame(eng, sh_it, s2, ordinal, pre, s)
         eng.canary(f"{pre}:body-end", s2, s)
-    fr_body = fr.with_(brk=lambda s2: k(s2), cont=body_end)
+    fr_body = fr.with_(brk=brk_of(eng, spec, pre, k, s), cont=body_end)
     eng.assign(s.target, elem(kk, sh_it), sh_it, fr, lambda s2: eng.ex(s.body, s2, fr_body, body_end), s)
     # -- exit after exhaustion: position == n.  The loop variable keeps its last value (if any).
     se = sh0
